@@ -17,7 +17,10 @@ class Prop:
                  exhaustive=None, trusted=None, assumptions=None, rtol=1e-9, atol_rel=1e-12,
                  finding_key=None, oracle=None, oracle_finish=None, def_ops=None, allow_badop=False,
                  compare_op=None, semantic_names=False, correspondence_only=None, cond_rescue=False,
-                 segment_scale=False):
+                 segment_scale=False, line_scale=None):
+        # optional stateful object with .feed(toks) -> float: an op-specific magnitude (fed every op line in order)
+        # that the absolute part of the tolerance is taken relative to, besides the magnitudes on the answer line
+        self.line_scale = line_scale
         # True where an answer may be pure rounding noise around zero (a residual, a derivative that vanishes):
         # the absolute tolerance is then relative to the largest magnitude seen since the last `reset`
         # (operands and answers), not only to the magnitudes on the answer line itself
@@ -180,6 +183,7 @@ PROPS["C06"] = Prop(
 # ---------------------------------------------------------------------------------------------
 # C07
 
+import math
 import gen_c07
 
 
@@ -308,20 +312,20 @@ PROPS["C17"] = Prop(
     rule="every stored order over a pool of 4 names (quick: 1/4 of the 65 stored lists; thorough: all) against ALL 65 "
          "requested duplicate-free lists for gradient1 (Dual and Dual2), gradient2 and gradient1_manifold; random Dual2 "
          "pairs for the manifold product rule (model-free oracle). non-trivial = non-empty request",
-    classify=_cls_c17, exhaustive=lambda tier: tier == "thorough", trusted=_dual_trusted, assumptions=_dual_assume,
-    oracle=_oracle_c17)
+    classify=_cls_c17, mode="vexact", exhaustive=lambda tier: tier == "thorough", trusted=_dual_trusted,
+    assumptions=_dual_assume, oracle=_oracle_c17)
 
 PROPS["C18"] = Prop(
     rule="EXHAUSTIVE over kind x kind x operator: 20 values (8 floats incl. +-0, 6 Dual, 6 Dual2, some sharing storage) "
          "all ordered pairs x {+,-,*,/,%} through the Number container, 6 comparisons, float on either side, "
          "set_order(_clone) to orders 0/1/2 with 5 name lists, From conversions; refusal observed via catch_unwind",
-    classify=_cls_c18, exhaustive=lambda tier: True, trusted=_dual_trusted, assumptions=_dual_assume)
+    classify=_cls_c18, mode="vexact", exhaustive=lambda tier: True, trusted=_dual_trusted, assumptions=_dual_assume)
 
 PROPS["C19"] = Prop(
     rule="random Dual/Dual2 pairs over all layouts of a 3-name pool with all sign combinations: 6 comparisons, float "
          "comparisons on both sides, abs, signum, % in the three operand forms, zero/one neutrality, sums of length 0..8 "
          "(typed and through Number). non-trivial = every op line",
-    classify=_cls_c19, exhaustive=lambda tier: False, trusted=_dual_trusted, assumptions=_dual_assume)
+    classify=_cls_c19, mode="vexact", exhaustive=lambda tier: False, trusted=_dual_trusted, assumptions=_dual_assume)
 
 
 def _cls_formula(t, impl):
@@ -409,6 +413,137 @@ def _plain_eval(toks, leaves):
         return (float("nan"), toks[1:], False)
 
 
+def _merge(a, b, fa=1.0, fb=1.0):
+    out = {k: fa * v for k, v in a.items()}
+    for k, v in b.items():
+        out[k] = out.get(k, 0.0) + fb * v
+    return out
+
+
+def _outer(a, b):
+    out = {}
+    for x, vx in a.items():
+        for y, vy in b.items():
+            out[(x, y)] = out.get((x, y), 0.0) + vx * vy
+            out[(y, x)] = out.get((y, x), 0.0) + vx * vy
+    return out
+
+
+def _bound_eval(toks, leaves):
+    """magnitude bounds for a prefix formula on dual-number leaves: returns (value, B1, B2, rest, ok) where
+    B1[name] / B2[(n, m)] bound the sum of the ABSOLUTE values of the terms that make up the first / second
+    derivative - the scale against which a rounding-level difference of that derivative has to be judged when the
+    terms cancel.  Plain doubles; ok is False outside the differentiable domain or on overflow."""
+    import math
+    from statistics import NormalDist
+    h, rest = toks[0], toks[1:]
+    if h[0] == "L":
+        lf = leaves.get(h[1:])
+        if lf is None or not math.isfinite(lf[0]):
+            return (float("nan"), {}, {}, rest, False)
+        return (lf[0], dict(lf[1]), dict(lf[2]), rest, True)
+    if h[0] == "K":
+        v = f_of_hex(h[1:])
+        return (v, {}, {}, rest, math.isfinite(v))
+
+    def chain(v, f1, f2, B1, B2):
+        return (v, {k: f1 * x for k, x in B1.items()}, _merge(B2, _outer(B1, B1), f1, f2))
+
+    try:
+        if h in ("+", "-", "*", "/"):
+            a, A1, A2, rest, oka = _bound_eval(rest, leaves)
+            b, C1, C2, rest, okb = _bound_eval(rest, leaves)
+            if not (oka and okb):
+                return (float("nan"), {}, {}, rest, False)
+            if h in ("+", "-"):
+                v = a + b if h == "+" else a - b
+                return (v, _merge(A1, C1), _merge(A2, C2), rest, math.isfinite(v))
+            if h == "/":
+                if b == 0:
+                    return (float("nan"), {}, {}, rest, False)
+                b, C1, C2 = chain(1.0 / b, 1.0 / (b * b), 2.0 / abs(b * b * b), C1, C2)
+            v = a * b
+            B1 = _merge(A1, C1, abs(b), abs(a))
+            B2 = _merge(_merge(A2, C2, abs(b), abs(a)), _outer(A1, C1))
+            return (v, B1, B2, rest, math.isfinite(v))
+        if h[0] == "p":
+            e = f_of_hex(h[1:])
+            a, A1, A2, rest, ok = _bound_eval(rest, leaves)
+            if not ok or a == 0 or (a < 0 and e != int(e)):
+                return (float("nan"), {}, {}, rest, False)
+            v, B1, B2 = chain(a ** e, abs(e * a ** (e - 1)), abs(e * (e - 1) * a ** (e - 2)), A1, A2)
+            return (v, B1, B2, rest, math.isfinite(v))
+        a, A1, A2, rest, ok = _bound_eval(rest, leaves)
+        if not ok:
+            return (float("nan"), {}, {}, rest, False)
+        if h in ("n", "N"):
+            return (-a, A1, A2, rest, True)
+        if h == "e":
+            x = math.exp(a)
+            r = chain(x, x, x, A1, A2)
+        elif h == "l":
+            if a <= 0:
+                return (float("nan"), {}, {}, rest, False)
+            r = chain(math.log(a), 1.0 / a, 1.0 / (a * a), A1, A2)
+        elif h == "c":
+            pdf = math.exp(-0.5 * a * a) / math.sqrt(2.0 * math.pi)
+            r = chain(0.5 * math.erfc(-a / math.sqrt(2.0)), pdf, abs(a) * pdf, A1, A2)
+        elif h == "q":
+            if not (0.0 < a < 1.0):
+                return (float("nan"), {}, {}, rest, False)
+            z = NormalDist().inv_cdf(a)
+            f1 = math.sqrt(2.0 * math.pi) * math.exp(0.5 * z * z)
+            r = chain(z, f1, abs(z) * f1 * f1, A1, A2)
+        elif h == "a":
+            if a == 0:
+                return (float("nan"), {}, {}, rest, False)
+            r = chain(abs(a), 1.0, 0.0, A1, A2)
+        else:
+            return (float("nan"), {}, {}, rest, False)
+        return (r[0], r[1], r[2], rest, math.isfinite(r[0]))
+    except (OverflowError, ValueError, ZeroDivisionError):
+        return (float("nan"), {}, {}, toks[1:], False)
+
+
+class _FormulaScale:
+    """fed every op line in order; for a formula evaluation returns the largest magnitude bound of the value and
+    of any first/second derivative (`_bound_eval`) - the scale of the absolute part of the tolerance"""
+
+    def __init__(self):
+        self.leaves = {}
+
+    def feed(self, t):
+        import math
+        try:
+            op = t[0]
+            if op == "reset":
+                self.leaves = {}
+            elif op == "flt":
+                self.leaves[t[1]] = (f_of_hex(t[2]), {}, {})
+            elif op in ("dual", "dual2"):
+                n = int(t[3])
+                names = [t[4 + 2 * k] for k in range(n)]
+                g = {names[k]: abs(f_of_hex(t[5 + 2 * k])) for k in range(n)}
+                hs = {}
+                if op == "dual2":
+                    base = 4 + 2 * n
+                    for i in range(n):
+                        for j in range(n):
+                            hs[(names[i], names[j])] = abs(f_of_hex(t[base + i * n + j]))
+                self.leaves[t[1]] = (f_of_hex(t[2]), g, hs)
+            elif op in ("eval", "evalgrad2"):
+                v, B1, B2, _, ok = _bound_eval(t[1:], self.leaves)
+                if ok:
+                    m = max([abs(v)] + list(B1.values()) + list(B2.values()))
+                    return m if math.isfinite(m) else 0.0
+        except (ValueError, IndexError, KeyError, OverflowError):
+            return 0.0
+        return 0.0
+
+
+PROPS["C01"].line_scale = _FormulaScale()
+
+
 def _oracle_c02(t, impl):
     """model-free: the read-back Hessian is symmetric; the number converted down to first order has the
     same value and gradient; derivatives are finite whenever EVERY intermediate value of the formula is
@@ -464,7 +599,7 @@ def _key_c02(t, il, ml):
 
 
 PROPS["C02"] = Prop(rule=_formula_rule % ", Hessian by name pair, gradient2 read-back, conversion down to first order",
-                    classify=_cls_formula, mode="close", cond_rescue=True, exhaustive=lambda tier: False, oracle=_oracle_c02,
+                    classify=_cls_formula, mode="close", cond_rescue=True, line_scale=_FormulaScale(), exhaustive=lambda tier: False, oracle=_oracle_c02,
                     finding_key=_key_c02,
                     trusted=_dual_trusted + ["statrs erfc/erfc_inv ported to Lean Float for the driver"],
                     assumptions=_dual_assume)
@@ -579,10 +714,105 @@ def _oracle_fx(t, impl):
     return None
 
 
+class _FxOracle:
+    """the stateless matrix laws of `_oracle_fx` plus, statefully over the stream, the three things C09/C10 demand
+    EXACTLY (they are judged on the implementation's own answers, so the correspondence itself can compare derived
+    rates with a tolerance): a quoted pair is returned exactly as quoted; a currency against itself is exactly 1;
+    a derivative-order switch changes no rate's value by a single bit"""
+    stateful = True
+
+    def __init__(self):
+        self.reset()
+
+    def reset(self):
+        self.q, self.last, self.state, self.duals = {}, {}, {}, {}
+
+    @staticmethod
+    def _matrix(impl):
+        head, *cells = [c.strip() for c in impl.split(";")]
+        ht = head.split()
+        n = int(ht[1])
+        ccys = ht[2:2 + n]
+        if len(cells) != n * n:
+            return None
+        nums = [_parse_num(c.split()) for c in cells]
+        if any(x is None for x in nums):
+            return None
+        return {(ccys[i], ccys[j]): nums[i * n + j][1] for i in range(n) for j in range(n)}
+
+    def _quotes(self, toks):
+        out = {}
+        for k in range(0, len(toks) - 3, 4):
+            l, r, v = toks[k], toks[k + 1], toks[k + 2]
+            if v.startswith("F"):
+                out[(l, r)] = f_of_hex(v[1:])
+            elif v.startswith("H"):
+                out[(l, r)] = self.duals.get(v[1:])
+            else:
+                out[(l, r)] = None
+        return out
+
+    def __call__(self, t, impl):
+        why = _oracle_fx(t, impl)
+        if why:
+            return why
+        op = t[0]
+        try:
+            if op == "reset":
+                self.reset()
+            elif op == "dual" and len(t) > 2 and len(t[2]) == 17 and t[2][0] == "h":
+                self.duals[t[1]] = f_of_hex(t[2])
+            elif op == "dual2" and len(t) > 2 and len(t[2]) == 17 and t[2][0] == "h":
+                self.duals[t[1]] = f_of_hex(t[2])
+            elif op == "fx" and impl == "ok":
+                h = t[1]
+                self.q[h] = self._quotes(t[4:])
+                self.last.pop(h, None)
+                self.state[h] = "fresh"
+            elif op == "fxupdate" and impl == "ok":
+                h = t[1]
+                if h in self.q:
+                    self.q[h].update(self._quotes(t[3:]))
+                self.state[h] = "updated"
+            elif op == "fxorder" and impl == "ok":
+                h = t[1]
+                if self.state.get(h) == "dumped":
+                    self.state[h] = "switched"
+            elif op == "fxrateq" and impl.split()[:1] and impl.split()[0] in ("F", "D", "D2"):
+                h, l, r = t[1], t[2], t[3]
+                p = _parse_num(impl.split())
+                if p is not None:
+                    if l == r and p[1] != 1.0:
+                        return "%s against itself is %r" % (l, p[1])
+                    v = self.q.get(h, {}).get((l, r))
+                    if v is not None and p[1] != v:
+                        return "quoted pair %s%s returned as %r, quoted %r" % (l, r, p[1], v)
+            elif op == "fxdump" and impl.startswith("M "):
+                h = t[1]
+                m = self._matrix(impl)
+                if m is None:
+                    return None
+                for (l, r), v in self.q.get(h, {}).items():
+                    if v is not None and (l, r) in m and m[(l, r)] != v:
+                        return "quoted pair %s%s returned as %r, quoted %r" % (l, r, m[(l, r)], v)
+                if self.state.get(h) == "switched" and h in self.last:
+                    for k, v in self.last[h].items():
+                        if k in m and m[k] != v and not (math.isnan(v) and math.isnan(m[k])):
+                            return ("the value of %s/%s changed from %r to %r on a derivative-order switch"
+                                    % (k[0], k[1], v, m[k]))
+                self.last[h] = m
+                self.state[h] = "dumped"
+        except (ValueError, IndexError, KeyError):
+            return None
+        return None
+
+
 _fx_trusted = [
     "hand-written model of rust/fx/rates/mod.rs (lean/RateslibModel/Model/FX.lean): arrays as functions with functional "
     "update, the recursion with fuel (n^2+1)(n+1)+1; tied to the code by the correspondence run",
-    "LLVM folds powf(x, -1.0) into 1.0/x in the Rust build while the driver calls libm pow: compared close-float",
+    "derived rates, gradients and Hessians are compared with the tolerance of the *close* rule (C09 speaks of them 'up to "
+    "floating-point rounding'); what C09/C10 demand exactly - quoted pairs as quoted, self rates 1, no value changed by a "
+    "derivative-order switch - is judged bit for bit on the implementation's own answers by a stateful model-free oracle",
 ]
 
 PROPS["C09"] = Prop(semantic_names=True, 
@@ -590,16 +820,16 @@ PROPS["C09"] = Prop(semantic_names=True,
          "base (or none), rates log-uniform 1e-2..1e2, with/without settlement; the same quotes re-ordered with another "
          "base; malformed stream (missing / inverted duplicate / duplicate / cycle / mixed settlement). compared: ok/err, "
          "every rate, full matrix; model-free oracle on the implementation's matrix (diagonal, inverse, triangle law)",
-    classify=_cls_fx, mode="exact", exhaustive=lambda tier: False, trusted=_fx_trusted,
-    assumptions=_dual_assume, oracle=_oracle_fx, allow_badop=True)
+    classify=_cls_fx, mode="close", modes={"fxrateq": "exact"}, exhaustive=lambda tier: False, trusted=_fx_trusted,
+    assumptions=_dual_assume, oracle=_FxOracle(), allow_badop=True)
 
 PROPS["C10"] = Prop(semantic_names=True, 
     rule="markets as C09 (n = 2..8, some quotes given as dual numbers with own variables) + histories of 0..12 ops (quote "
          "updates of subsets, updates naming unknown/inverted pairs, order switches 0/1/2); after every op: order, full "
          "matrix with gradients and Hessians by name, and a market built directly from the latest quotes; model-free "
          "oracle: every sensitivity to fx_abc is 0 or +-rate/quote",
-    classify=_cls_fx, mode="exact", exhaustive=lambda tier: False, trusted=_fx_trusted,
-    assumptions=_dual_assume, oracle=_oracle_fx)
+    classify=_cls_fx, mode="close", modes={"fxrateq": "exact"}, exhaustive=lambda tier: False, trusted=_fx_trusted,
+    assumptions=_dual_assume, oracle=_FxOracle())
 
 
 # ---------------------------------------------------------------------------------------------
